@@ -94,6 +94,13 @@ def intermediate_qnames(ms):
     return ['global.%s' % i['id'] for i in ms['inter']]
 
 
+def depot(ms):
+    """Name of the dose compartment an indirect administration adds: 'dose', or 'dose_1' when the model has a
+    compartment of that name already (myokit's add_component_allow_renaming; asserted by c09 on the unchanged
+    library)."""
+    return 'dose_1' if any(c['id'] == 'dose' for c in ms['comps']) else 'dose'
+
+
 def published_parameters(ms, admin=None):
     """The documented rule: initial values of states alphabetically, then constants
     alphabetically (recomputed here with sorted(), independently of chi).
@@ -102,8 +109,8 @@ def published_parameters(ms, admin=None):
     s = state_qnames(ms)
     c = list(const_qnames(ms))
     if admin is not None and not admin['direct']:
-        s = s + ['dose.drug_amount']
-        c = c + ['dose.absorption_rate']
+        s = s + [depot(ms) + '.drug_amount']
+        c = c + [depot(ms) + '.absorption_rate']
     return sorted(s) + sorted(c)
 
 
@@ -113,8 +120,8 @@ def default_values(ms, admin=None):
         vals[q] = c['init']
     vals.update(const_qnames(ms))
     if admin is not None and not admin['direct']:
-        vals['dose.drug_amount'] = 0.0
-        vals['dose.absorption_rate'] = 1.0
+        vals[depot(ms) + '.drug_amount'] = 0.0
+        vals[depot(ms) + '.absorption_rate'] = 1.0
     return vals
 
 
@@ -254,8 +261,9 @@ def ref_simulate(ms, theta, times, outputs, admin=None, events=None):
     val = dict(zip(names, theta))
     sq = state_qnames(ms)
     n = len(sq)
-    depot = admin is not None and not admin['direct']
-    N = n + (1 if depot else 0)
+    depot_name = depot(ms)
+    has_depot = admin is not None and not admin['direct']
+    N = n + (1 if has_depot else 0)
     cplx = np.iscomplexobj(theta)
     dt = complex if cplx else float
     rate = {}
@@ -270,10 +278,10 @@ def ref_simulate(ms, theta, times, outputs, admin=None, events=None):
         if f['dst'] is not None:
             M[f['dst'], f['src']] += r
     b = np.zeros(N, dtype=dt)
-    x0 = np.array([val[q] for q in sq] + ([val['dose.drug_amount']] if depot else []), dtype=dt)
+    x0 = np.array([val[q] for q in sq] + ([val[depot_name + '.drug_amount']] if has_depot else []), dtype=dt)
     if admin is not None:
-        if depot:
-            ka = val['dose.absorption_rate']
+        if has_depot:
+            ka = val[depot_name + '.absorption_rate']
             M[n, n] -= ka
             M[admin['comp'], n] += ka
             b[n] = 1.0
@@ -317,7 +325,7 @@ def ref_simulate(ms, theta, times, outputs, admin=None, events=None):
     for r, q in enumerate(outputs):
         if q in sq:
             out[r] = X[:, sq.index(q)]
-        elif q == 'dose.drug_amount' and depot:
+        elif q == depot_name + '.drug_amount' and has_depot:
             out[r] = X[:, n]
         else:
             found = False
@@ -350,5 +358,5 @@ def max_out_rate(ms, theta, admin=None):
         loss[f['src']] += abs(rate[f['rate']])
     m = max(loss) if loss else 0.0
     if admin is not None and not admin['direct']:
-        m = max(m, abs(val['dose.absorption_rate']))
+        m = max(m, abs(val[depot(ms) + '.absorption_rate']))
     return m
